@@ -24,7 +24,7 @@ LEVEL_TEXT = ("Thousands of generated programs per run are executed by the real 
 LEVEL_NOTE = ("Trusts pbmon/ref/worlds.py (naive grounder + alternating-fixpoint well-founded model, ~250 lines) and the "
               "generator's feature classifier; known engine crashes on the non-clean input class are listed in known_findings.json.")
 TECHNIQUE = "runtime reference-model monitor (possible-world enumerator) over generated programs + sys.monitoring reach counters"
-BUDGET = {"quick": 3000, "thorough": 60000}
+BUDGET = {"quick": 3000, "thorough": 40000}
 TIME_BUDGET = {"quick": 200, "thorough": 3000}
 CASE_TIMEOUT = 12
 WATCHDOG_FRACTION = 0.03
